@@ -183,7 +183,24 @@ def _lt(a, b):
     return atom("%s < %s" % (key(a), key(b)))
 
 
+def _const_val(e):
+    if is_expr(e) and e[0] in ("int", "enum"):
+        try:
+            return int(e[1] if e[0] == "int" else e[2])
+        except (TypeError, ValueError, IndexError):
+            return None
+    return None
+
+
 def _eq(a, b):
+    # comparisons distribute over a conditional term: (c ? x : y) == k
+    for x, y in ((a, b), (b, a)):
+        if is_expr(x) and x[0] == "?:":
+            c = to_formula(x[1])
+            return mk_or([mk_and([c, _eq(x[2], y)]), mk_and([mk_not(c), _eq(x[3], y)])])
+    va, vb = _const_val(a), _const_val(b)
+    if va is not None and vb is not None:
+        return T if va == vb else Fa
     for x, y in ((a, b), (b, a)):
         if is_expr(y) and y[0] == "bool":
             f = to_formula(x)
